@@ -80,6 +80,11 @@ def cases(tier, seed):
                             'pattern': pat, 'window': geom == '3d' and m % 3 == 0, 'cli': geom == '3d' and m % 4 == 1,
                             'where': ['first', 'last', 'partial', 'random'][m % 4], 'cost': 3})
                 m += 1
+    # generated ZGY sources through ZgyConverter: hash of the float32 samples pyzgy reads
+    for j in range(8 if tier == 'quick' else 48):
+        nI, nX = rng.choice([(5, 5), (9, 7), (8, 8), (4, 17), (6, 10), (17, 18)])
+        out.append({'id': 'zgy:%d' % j, 'src': conv.zgy_desc(rng, (nI, nX, rng.choice([3, 10, 31, 64]))), 'settings': [[r, list(b)] for r, b in rng.sample(set3, 3)],
+                    'where': ['first', 'last', 'partial', 'random'][j % 4], 'cost': 3})
     return out
 
 
@@ -99,13 +104,15 @@ def run_case(case, ctx):
         nonlocal n
         got = {}
         for rate, bs in case['settings']:
-            routes = ['numpy'] if geom == 'numpy' else (['segyio', 'iops'] if geom == '3d' else ['segyio'])
+            routes = ['numpy'] if geom == 'numpy' else ['zgy'] if geom == 'zgy' else (['segyio', 'iops'] if geom == '3d' else ['segyio'])
             if case.get('cli') and rate >= 1:
                 routes = routes + ['cli']
             for route in routes:
                 out = sc.file('o-%s-%s-%s.sgz' % (tag, rate, route))
                 if route == 'numpy':
                     conv.convert_numpy(src['data'], out, rate, bs, ilines=src['ilines'], xlines=src['xlines'], samples=src['samples'])
+                elif route == 'zgy':
+                    conv.convert_zgy(src['path'], out, rate, bs)
                 elif route == 'cli':
                     conv.convert_cli_inproc(src['path'], out, rate, bs)
                 else:
@@ -182,6 +189,10 @@ def run_case(case, ctx):
     if geom == 'numpy':
         src2 = dict(src)
         src2['data'] = T2.reshape(src['data'].shape)
+    elif geom == 'zgy':
+        d = case['src']
+        src2 = dict(src)
+        src2['path'] = conv.write_zgy(sc.file('pert.zgy'), T2.reshape(src['data'].shape), d['il'], d['xl'], d['z0'], d['dz'], d['corners'])
     else:
         import segyio
         p2 = sc.file('pert.sgy')
@@ -208,7 +219,7 @@ def run_case(case, ctx):
 
 def finalize(tier, cases, results, counters, strata):
     reasons = []
-    need = ['geom:3d', 'geom:2d', 'geom:irregular', 'geom:numpy', 'where:first', 'where:last', 'where:partial', 'where:random', 'windowed']
+    need = ['geom:3d', 'geom:2d', 'geom:irregular', 'geom:numpy', 'geom:zgy', 'where:first', 'where:last', 'where:partial', 'where:random', 'windowed']
     need += ['detection:' + d for d in ('heuristic', 'strip', 'thorough', 'exhaustive')]
     need += ['aligned-axes:%s:%d' % (g, p) for g in ('3d', '2d') for p in range(8)]
     for s in need:
